@@ -28,8 +28,10 @@ LEVEL_TEXT = ("Exploration: every interleaving of the four handshake replies (th
               "unbounded in principle, so this is bounded exhaustive search plus sampling, not a proof.")
 LEVEL_NOTE = ("most drivers emulate the accept/read/close loop of OpenFlow_01_Task (read() False or raising -> close(), "
               "socket dropped); the real-task-loop drivers run OpenFlow_01_Task.run() itself as a generator and choose what each "
-              "select round reports (readable / exceptional / both / neither per connection); TCP segmentation is C02's subject and only whole messages (optionally several per recv) are fed")
-RULE = ("a case is a history of ops (open / message / loss / disconnect / sendToDPID / DownEvent) over <= 3 connections and 2 "
+              "select round reports (readable / exceptional / both / neither per connection) and how the switch's bytes are cut into TCP segments "
+              "(a message may arrive in 2..4 segments with a read after each, or exceed one 2048-byte recv); the emulated-loop drivers feed whole "
+              "messages only (optionally several per recv) -- reassembly as such is C02's subject, here only its consequences for the lifecycle are judged")
+RULE = ("a case is a history of ops (open / message / message in several TCP segments / loss / disconnect / sendToDPID / DownEvent / select round) over <= 3 connections and 2 "
         "datapath ids; non-trivial when at least one asynchronous message arrived on a connection before it was announced, or "
         "two connections with the same datapath id had overlapping lifetimes; distinct by SHA-1 of the canonical JSON of the ops")
 ASSUMPTIONS = [
@@ -44,6 +46,7 @@ ASSUMPTIONS = [
   "core DownEvent: every connection that is registered (the most recent live announced one per datapath) must get ConnectionDown exactly once within that step and leave the registry; a superseded, unregistered older connection of the same datapath is not judged",
   "real task loop: a connection is only reported readable when its fake socket has data, EOF or an error pending (as select would); it may be reported exceptional at any time, which counts as a loss: it must be closed and get its ConnectionDown; messages queued but unread at that moment count as never received; at the end every switch goes away and every connection must have been closed by the loop",
   "a switch answers the handshake barrier once (the quantifier's multiset); histories with a second barrier reply can be replayed but are not generated",
+  "real task loop: a connection whose switch is there (no EOF / reset / exceptional report / failed send), that the application has not disconnected and whose switch sent only well-formed messages none of which lets the controller drop it (foreign barrier xid: followed) must not be closed by the loop, however its bytes are cut into TCP segments -- otherwise its connection-up can never be raised once after the features and barrier replies, or it gets a connection-down and leaves the registry although it was not lost (clause healthy-connection-closed-by-the-loop; not judged for a round in which the task logged an exception)",
 ]
 EXHAUSTIVE_SCOPE = {
   "quick": ("one connection: all 24 orders of {hello, features, desc-stats, barrier outcome} x 3 barrier outcomes x every "
@@ -54,7 +57,10 @@ EXHAUSTIVE_SCOPE = {
             "of the controller's 5 handshake messages (and all 25 pairs of BAD_REQUEST/BAD_TYPE errors) at every position x 4 barrier outcomes; "
             "core DownEvent after every announced/half/none mix of 1..3 connections over 8 dpid assignments and all orders, and at every point "
             "of all 70 merges of two lifecycles on different dpids; real task loop: one select round reporting each of two connections "
-            "not at all / readable / exceptional / both, with and without data pending, at each of 5 handshake stages"),
+            "not at all / readable / exceptional / both, with and without data pending, at each of 5 handshake stages; each of the 8 messages of "
+            "a handshake-plus-traffic sequence (2 barrier outcomes) cut into 2 or 3 TCP segments at 7 boundary offsets with a read after each segment, alone or read together with "
+            "the message before it, with and without an announced connection of the same dpid; features replies of 42/43/64 ports and packet-ins of 2048/2049/5032 bytes "
+            "whole and in segments; EOF / reset after a first segment at 3 offsets of each message"),
   "thorough": ("as quick with <= 3 asynchronous messages, three connections with [open, handshake, lose] stages (1680 merges x 4 "
                "dpid assignments), and EOF / reset after every byte prefix of the handshake with a second live connection on the same dpid"),
 }
@@ -84,7 +90,7 @@ def setup():
 # --------------------------------------------------------------------------- harness
 
 class _C(object):
-  __slots__ = ("idx", "con", "sock", "closed", "pending", "joined", "parsed", "m", "armed", "acts", "requests", "barrier_answered")
+  __slots__ = ("idx", "con", "sock", "closed", "pending", "joined", "parsed", "m", "armed", "acts", "requests", "barrier_answered", "dead")
 
 
 class _H(object):
@@ -171,6 +177,7 @@ class _H(object):
     c.sock = _W.FakeSock()
     c.con = self.make_connection(c.sock)
     c.closed = c.pending = c.joined = c.armed = False
+    c.dead = False           # its switch died in the middle of a message: nothing more can arrive on it
     c.parsed = 0
     c.acts = []
     c.barrier_answered = False
@@ -276,8 +283,12 @@ class _H(object):
     if t == "hello":
       return sb.hello(0), None
     if t == "feat":
-      ports = [{"no": 1, "hw": b"\x02\x00\x00\x00\x0a\x01", "name": "eth1"},
-               {"no": 2, "hw": b"\x02\x00\x00\x00\x0a\x02", "name": "eth2"}]
+      # ["feat"] describes two ports; ["feat", n] describes n (32 + 48n bytes: 42 ports fill one 2048-byte recv exactly,
+      # 43 and more cannot arrive in one read)
+      nports = msg[1] if len(msg) > 1 else 2
+      ports = [{"no": k, "hw": b"\x02\x00\x00\x00" + bytes([0x0a + (k >> 8), k & 0xff]), "name": "eth%d" % k} for k in range(1, nports + 1)]
+      if nports != 2:
+        self.out.label("features-reply:%s" % ("one-recv-or-less" if 32 + 48 * nports <= 2048 else "larger-than-one-recv"))
       if c.m.up:
         self.refreshed.add(c.idx)      # a features reply after the handshake (the application asked again)
         self.out.label("features-reply-after-handshake" + ("/superseded" if c.m.superseded else ""))
@@ -346,8 +357,13 @@ class _H(object):
     if t == "echo":
       return sb.echo_request(self.xid_seq, b"ping"), lambda: m.other(c.m)
     if t == "pin":
-      frame = sb.ethernet_frame(b"\xff" * 6, b"\x02\x00\x00\x00\x00\x01", 0x0806, b"\x00" * 28)
-      return sb.packet_in(0, 0xffffffff, 1, frame), lambda: m.other(c.m)
+      # ["pin"] carries an ARP frame; ["pin", n] a frame with n payload bytes (message = 32 + n bytes for n >= 46)
+      npay = msg[1] if len(msg) > 1 else 28
+      frame = sb.ethernet_frame(b"\xff" * 6, b"\x02\x00\x00\x00\x00\x01", 0x0806, b"\x00" * npay)
+      data = sb.packet_in(0, 0xffffffff, 1, frame)
+      if npay != 28:
+        self.out.label("packet-in:%s" % ("one-recv-or-less" if len(data) <= 2048 else "larger-than-one-recv"))
+      return data, lambda: m.other(c.m)
     if t == "err":
       v = msg[1] % 4
       data = (b"\x01\x0e\x00\x48" + b"\x00" * 60) if (len(msg) > 2 and msg[2]) else b""
@@ -639,6 +655,18 @@ class _HL(_H):
     _H.__init__(self, out, app, dpids)
     from ..sim import loops
     self.loop = loops.ControllerLoop(self.w)
+    self.fedn = {}             # connection index -> bytes its switch has sent so far
+    self.bounds = {}           # connection index -> stream offsets at which a message ends
+
+  def feed(self, c, data, ends_message=True):
+    c.sock.feed(data)
+    self.fedn[c.idx] = self.fedn.get(c.idx, 0) + len(data)
+    if ends_message:
+      self.bounds.setdefault(c.idx, set([0])).add(self.fedn[c.idx])
+
+  def mid_message(self, c):
+    """has the controller read part of a message whose rest has not been read yet"""
+    return (self.fedn.get(c.idx, 0) - len(c.sock.inbox)) not in self.bounds.get(c.idx, set([0]))
 
   def close(self):
     try:
@@ -676,7 +704,16 @@ class _HL(_H):
       return
     for c in el:
       self.out.label("loop:reported-exceptional" + ("+readable" if c in rl else "") + ("/data-pending" if c.sock.inbox else "") + _stage(c))
+    # a connection whose switch is there and on which the controller has seen no loss so far
+    sound = set(c.idx for c in rl if c not in el and not c.m.lost and not c.pending and not c.sock.eof and c.sock.recv_error is None
+                and not c.sock.fatal)
+    n_exc = len(self.loop.log.exceptions)
+    mid = {}
     self.loop.select = self.loop._advance(([c.con for c in rl], [], [c.con for c in el]))
+    for c in rl:
+      mid[c.idx] = self.mid_message(c)
+      if mid[c.idx] and not c.sock.closed:
+        self.out.label("loop:read-ended-inside-a-message" + _stage(c))
     # whatever is still queued on a connection that was read and survived is read in further rounds
     n = 0
     while self.loop.alive:
@@ -684,10 +721,17 @@ class _HL(_H):
       if not more:
         break
       self.loop.select = self.loop._advance(([c.con for c in more], [], []))
+      for c in more:
+        if self.mid_message(c):
+          mid[c.idx] = True
+          if not c.sock.closed:
+            self.out.label("loop:read-ended-inside-a-message" + _stage(c))
       n += 1
       if n > 1000:
         raise HarnessError("task loop does not drain")
-    # ---- tell the model
+    # ---- tell the model (as in the emulated loop: what the controller wrote while reading is known first, so that a
+    # pipelined answer to a barrier request that had not been sent when the answer was built is recognised as foreign)
+    self._scan_sent()
     for c in self.cs:
       if c in el:
         # reported exceptional: the loop tears it down without reading; queued messages were never received
@@ -705,6 +749,15 @@ class _HL(_H):
           self._follow(c)
         self._note_loss(c)
         if c.sock.closed:
+          if c.idx in sound and not c.m.lost and not c.m.unjudged and len(self.loop.log.exceptions) == n_exc:
+            # the switch is there, the application has not disconnected it, nothing it sent lets the controller drop it
+            # (the model has followed the foreign-barrier-xid case above) and nothing was raised: the loop has thrown a
+            # healthy connection away -- its connection-up can no longer be raised once after the features and barrier
+            # replies / it gets a connection-down and leaves the registry although it was not lost
+            self.once.fail("healthy-connection-closed-by-the-loop",
+                           "connection %d (%s): its switch is there and sent only well-formed messages, but the task loop closed it after a read that %s (op %r)" % (
+                               c.idx, _stage(c)[1:], "ended inside a message (the rest had not arrived yet)" if mid.get(c.idx) else "ended on a message boundary", op),
+                           read="ended-inside-a-message" if mid.get(c.idx) else "whole-messages")
           c.closed = True
           c.pending = False
           self.model.closed(c.m)
@@ -727,13 +780,48 @@ def _run_loop(h, ops):
         h.opened_at[c.idx] = step
     elif o == "m":
       c = h.get(op[1])
-      if c is None or c.pending:
+      if c is None or c.pending or c.dead:
         continue
       out.label("msg:" + op[2][0] + ("/pre-up" if not c.m.up else "/post-up"))
       data, act = h.build(c, op[2])
-      c.sock.feed(data)
+      h.feed(c, data)
       c.acts.append(act)
       c.joined = True
+    elif o == "mseg":
+      # one message that reaches the controller in several TCP segments: after each segment but the last the
+      # task wakes up and reads this connection (the rest has not arrived yet); the last one is queued like "m"
+      # (or, with op[4] = "eof"/"rst", never arrives: the connection dies instead)
+      c = h.get(op[1])
+      if c is None or c.pending or c.dead:
+        continue
+      data, act = h.build(c, op[2])
+      points = sorted(set(1 + k % (len(data) - 1) for k in op[3]))
+      out.label("msg:" + op[2][0] + ("/pre-up" if not c.m.up else "/post-up"))
+      out.label("segmented:%s/%d-segments%s" % (op[2][0], len(points) + 1, "/first-inside-header" if points and points[0] < 8 else ""))
+      out.label("segmented" + _stage(c))
+      prev = 0
+      only = [1 if i == c.idx else 0 for i in range(MAX_CONNS)]
+      for pt in points:
+        if c.closed or c.pending:
+          break
+        h.feed(c, data[prev:pt], ends_message=False)
+        prev = pt
+        c.joined = True
+        h.round(only, ["mseg-round", c.idx, pt])
+      if c.closed or c.pending:
+        continue
+      if len(op) > 4 and op[4]:
+        # the rest never arrives: the connection dies with part of a message delivered
+        if op[4] == "rst":
+          c.sock.recv_error = errno.ECONNRESET
+        else:
+          c.sock.eof = True
+        c.dead = True
+        out.label("loss:inside-a-segmented-message" + _stage(c))
+      else:
+        h.feed(c, data[prev:])
+        c.acts.append(act)
+        c.joined = True
     elif o == "lose":
       c = h.get(op[1])
       if c is None:
@@ -1135,6 +1223,82 @@ def enum_loop(tier):
             yield {"k": "loop", "ops": ops}
 
 
+_SEG_LENS = {"hello": 8, "feat": 128, "ps": 64, "desc": 1068, "bar": 8, "berr": 20, "pin": 78, "echo": 12}
+
+
+def enum_loop_segments(tier):
+  """through the real task loop: each message of a handshake (and of the traffic after it) reaches the controller in
+  two or three TCP segments, cut inside the header, right after it, in the middle and before the last byte, with the
+  task reading the connection after every segment; alone or in the same read as the whole message before it; with and
+  without an announced connection of the same datapath; messages larger than one 2048-byte recv (features reply with
+  42 / 43 / 64 ports, packet-in of 2048 / 2049 / 5032 bytes); and the connection dying after a first segment"""
+  R = ["round", [1, 1, 1]]
+  up = lambda i: [["m", i, ["hello"]], R, ["m", i, ["feat"]], R, ["m", i, ["bar", "right"]], R]
+
+  def cutsets(name):
+    L = _SEG_LENS[name]
+    pts = [1, 4, 7, 8, 9, L // 2, L - 1]
+    pts = sorted(set(p_ for p_ in pts if 1 <= p_ <= L - 1))
+    sets = [[p_ - 1] for p_ in pts]
+    if L > 16:
+      sets.append([3, L // 2 - 1])          # three segments: inside the header, inside the body
+      sets.append([7, 8])                   # the header alone, one more byte, the rest
+    return sets
+
+  def tail(i):
+    return [["m", i, ["ps", 2, 1]], R, ["send", 0], ["send", 1], ["lose", i, "eof"], R, ["send", 0]]
+
+  for bar in (["bar", "right"], ["berr"]):
+    seq = [["hello"], ["feat"], ["ps", 2, 0], ["desc"], bar, ["ps", 0, 1], ["pin"], ["echo"]]
+    for second in (0, 1):
+      i = 1 if second else 0
+      pre = ([["open", 0]] + up(0)) if second else []
+      post = [["send", 0], ["lose", 0, "eof"], R, ["send", 0]] if second else []
+      for k in range(len(seq)):
+        for cuts in cutsets(seq[k][0]):
+          for glue in (0, 1):
+            if glue and (k == 0 or (tier == "quick" and len(cuts) > 1)):
+              continue
+            ops = pre + [["open", 0]]
+            for j, m in enumerate(seq):
+              if j == k:
+                ops += [["mseg", i, m, cuts], R]
+              elif j == k - 1 and glue:
+                ops += [["m", i, m]]           # read together with the first segment of the next message
+              else:
+                ops += [["m", i, m], R]
+            yield {"k": "loop", "ops": ops + tail(i) + post}
+      # every message of the handshake in two segments
+      ops = pre + [["open", 0]]
+      for m in seq:
+        ops += [["mseg", i, m, [_SEG_LENS[m[0]] // 2 - 1]], R]
+      yield {"k": "loop", "ops": ops + tail(i) + post}
+      # messages that do not fit one recv: whole (the loop needs two or more reads) and in segments
+      for big, where in ([["feat", 42], 1], [["feat", 43], 1], [["feat", 64], 1], [["pin", 2016], 2], [["pin", 2017], 2], [["pin", 5000], 2],
+                         [["pin", 2017], 5], [["pin", 5000], 5], [["feat", 43], 6]):
+        for cuts in (None, [99], [2047], [2048], [7, 2100]):
+          ops = pre + [["open", 0]]
+          for j, m in enumerate(seq):
+            if j == where:
+              ops += [["m", i, big] if cuts is None else ["mseg", i, big, cuts], R]
+              if where == 1:
+                continue                       # it is the features reply of the handshake
+            ops += [["m", i, m], R]
+          yield {"k": "loop", "ops": ops + tail(i) + post}
+      # the connection dies after the first segment(s) of a message
+      for how in ("eof", "rst"):
+        for k in range(len(seq)):
+          L = _SEG_LENS[seq[k][0]]
+          for cuts in ([0], [6], [7], [L // 2 - 1], [L - 2], [3, L // 2 - 1]):
+            if tier == "quick" and cuts[0] not in (6, 7, L - 2):
+              continue
+            ops = pre + [["open", 0]]
+            for m in seq[:k]:
+              ops += [["m", i, m], R]
+            ops += [["mseg", i, seq[k], cuts, how], R, ["send", 0], ["send", 1]]
+            yield {"k": "loop", "ops": ops + post}
+
+
 def _merges(lists):
   """all interleavings of the given lists (each keeps its order)"""
   lists = [l for l in lists if l]
@@ -1425,7 +1589,21 @@ def _loop_history(draw, tier):
   for op in base:
     o = op[0]
     if o == "m":
-      ops.append(["m", op[1], op[2]])
+      msg = op[2]
+      g = draw(st.integers(0, 15))
+      if msg[0] == "feat" and g == 0:
+        msg = ["feat", draw(st.sampled_from([0, 1, 41, 42, 43, 44, 85, 86, 120]))]       # 42 ports = 2048 bytes = one recv exactly
+      elif msg[0] == "pin" and g <= 2:
+        msg = ["pin", draw(st.sampled_from([46, 2015, 2016, 2017, 4064, 4065, 9000]))]
+      if draw(st.integers(0, 5)) == 0:
+        # the message arrives in 2..4 TCP segments (cut points are taken modulo its length; small ones fall into the header)
+        cut = st.one_of(st.integers(0, 9), st.integers(0, 12000))
+        seg = ["mseg", op[1], msg, draw(st.lists(cut, min_size=1, max_size=3))]
+        if draw(st.integers(0, 9)) == 0:
+          seg.append(draw(st.sampled_from(["eof", "rst"])))
+        ops.append(seg)
+      else:
+        ops.append(["m", op[1], msg])
       dup_feat = False
       if op[2] == ["feat"]:
         nfeat[op[1]] = nfeat.get(op[1], 0) + 1
@@ -1466,6 +1644,7 @@ def plan(tier):
       Enum("barrier-answer-sequences", lambda: enum_barrier_answers(tier), shards=4),
       Enum("core-DownEvent", lambda: enum_down(tier), shards=4),
       Enum("real-task-loop", lambda: enum_loop(tier), shards=2),
+      Enum("real-task-loop-segmented-messages", lambda: enum_loop_segments(tier), shards=4),
       Enum("applications-acting-inside-handlers", lambda: enum_app(tier), shards=4),
       Enum("features-reply-after-the-handshake", lambda: enum_refresh(tier), shards=1),
       Enum("datapath-id-values", lambda: enum_dpid_values(tier), shards=4),
@@ -1481,8 +1660,10 @@ def plan(tier):
     Enum("barrier-answer-sequences", lambda: enum_barrier_answers(tier), shards=8),
     Enum("core-DownEvent", lambda: enum_down(tier), shards=8),
     Enum("real-task-loop", lambda: enum_loop(tier), shards=8),
+    Enum("real-task-loop-segmented-messages", lambda: enum_loop_segments(tier), shards=8),
     Enum("applications-acting-inside-handlers", lambda: enum_app(tier), shards=8),
     Enum("features-reply-after-the-handshake", lambda: enum_refresh(tier), shards=2),
+    Enum("datapath-id-values", lambda: enum_dpid_values(tier), shards=4),
     Hyp("real-task-loop-histories", lambda: _loop_history(tier), examples=60000, shards=16),
     Hyp("histories", lambda: _history(tier), examples=300000, shards=16),
   ]
